@@ -6,4 +6,9 @@ UNITS = [
          target="CodeHolder_bind_label", contracts="contracts/c03_bind.h", replace=["CodeWriterUtils_write_offset"], unwind=16, object_bits=9, mem_gb=24, quick_defines=["VERIF_NFIX=1"], thorough_defines=["VERIF_NFIX=2"], timeout=3000,
          kind="bounded", bound_note="1 label entry, 2 sections (buffers <= 24 bytes), 1 relocation entry, <= 1 (quick) / 2 (thorough) pending fixups on the label; offsets, rel, formats, ids symbolic",
          note="modular: CodeWriterUtils::write_offset replaced by its contract (unit c17.write_offset)"),
+    Unit(name="c03.resolve_cross_section_fixups", props=["C03"], replay="replay/c03_resolve.cpp", tu=CH, roots=["asmjit::CodeHolder::resolve_cross_section_fixups"], stops=["asmjit::CodeWriterUtils::write_offset"],
+         target="CodeHolder_resolve_cross_section_fixups", contracts="contracts/c03_resolve.h", replace=["CodeWriterUtils_write_offset"], unwind=16, object_bits=10, mem_gb=28,
+         quick_defines=["VERIF_NFIX=1"], thorough_defines=["VERIF_NFIX=2"], timeout=3000, kind="bounded",
+         bound_note="1 bound label, 2 sections (buffers <= 24 bytes), <= 1 (quick) / 2 (thorough) cross-section references; section offsets, label offset, rel, formats symbolic (full 64-bit range)",
+         note="modular: CodeWriterUtils::write_offset replaced by its contract (unit c17.write_offset)"),
 ]
